@@ -79,6 +79,8 @@ except ImportError:
 Self = TypeVar("Self", bound="AsyncBaseClientOpenTelemetry")
 
 GRAPHQL_TRANSPORT_WS = "graphql-transport-ws"
+# returned by _handle_ws_message when the server completed the subscription
+_WS_COMPLETE: Dict[str, Any] = {}
 
 
 class GraphQLTransportWSMessageType(str, enum.Enum):
@@ -396,6 +398,8 @@ class AsyncBaseClientOpenTelemetry:
 
             async for message in websocket:
                 data = await self._handle_ws_message(message, websocket)
+                if data is _WS_COMPLETE:
+                    break
                 if data:
                     yield data
 
@@ -455,7 +459,9 @@ class AsyncBaseClientOpenTelemetry:
 
         if type_ == GraphQLTransportWSMessageType.COMPLETE:
             await websocket.close()
-        elif type_ == GraphQLTransportWSMessageType.PING:
+            return _WS_COMPLETE
+
+        if type_ == GraphQLTransportWSMessageType.PING:
             await websocket.send(
                 json.dumps({"type": GraphQLTransportWSMessageType.PONG.value})
             )
@@ -604,6 +610,8 @@ class AsyncBaseClientOpenTelemetry:
                     data = await self._handle_ws_message_with_telemetry(
                         root_span=root_span, message=message, websocket=websocket
                     )
+                    if data is _WS_COMPLETE:
+                        break
                     if data:
                         yield data
 
@@ -694,7 +702,9 @@ class AsyncBaseClientOpenTelemetry:
 
             if type_ == GraphQLTransportWSMessageType.COMPLETE:
                 await websocket.close()
-            elif type_ == GraphQLTransportWSMessageType.PING:
+                return _WS_COMPLETE
+
+            if type_ == GraphQLTransportWSMessageType.PING:
                 await websocket.send(
                     json.dumps({"type": GraphQLTransportWSMessageType.PONG.value})
                 )
